@@ -12,6 +12,7 @@ RULES = {
               '(ADD-ROOT, ATTACH, DETACH, CLEAR-DESC, SPLICE, SET-VALUE, accessor) with consistent keys and guards',
     'C12.R3': 'no mutation event may precede a returned Err in a &mut self method of Tree',
 }
+WITNESSES = ['C12ArenaIsPrivate', 'C12RootIsPrivate']  # thorough tier: compile_fail witnesses in /verif/witness
 FLOORS = {'C12.R1': 10, 'C12.R2': 13, 'C12.R3': 5}
 EXPLANATION = (
     'Each of the six mutators performs a fixed set of paired link updates; the contracts below each preserve '
